@@ -2,6 +2,7 @@ package main
 
 import (
 	"fmt"
+	"go/constant"
 	"go/token"
 	"go/types"
 	"sort"
@@ -536,7 +537,30 @@ func c10R4(c *Ctx) {
 		pos := P.InstrPos(in)
 		switch v := st.Val.(type) {
 		case *ssa.Const:
-			c.ok(cname+"/continuation:nil", pos, cname, "the walk ends here")
+			// the walk ends: only where the document has no following page (the key is
+			// absent) or a failure item is delivered in this very step — not because
+			// of anything else the document says about itself (seed C10-2r8: `totalItems`
+			// already reached; a stale count silently drops the later pages)
+			okEnd := false
+			for _, f := range factsOf(cl).At(b) {
+				if e, sentinel, truth, ok := f.ErrorsIs(); ok && truth && strings.HasSuffix(path(e), ".&nextErr.*") {
+					if u, ok := sentinel.(*ssa.UnOp); ok {
+						if g, ok := u.X.(*ssa.Global); ok && g.Name() == "ErrKeyNotPresent" {
+							okEnd = true
+						}
+					}
+				}
+			}
+			if !okEnd && h.laterCell != nil {
+				for _, in2 := range b.Instrs {
+					if st2, ok := in2.(*ssa.Store); ok {
+						if cell2, ok := resolveCell(st2.Addr).(*ssa.Alloc); ok && cell2 == h.laterCell && failureTriple(st2.Val, v, ssa.NewConst(constant.MakeInt64(0), types.Typ[types.Uint])) {
+							okEnd = true
+						}
+					}
+				}
+			}
+			c.check(okEnd, cname+"/continuation:nil", pos, cname, "the walk ends here: no following page, or a failure item is delivered", "the walk is ended (nil continuation) on a path that neither knows the following page to be absent nor delivers a failure item: pages that exist are never asked for")
 		case *ssa.MakeInterface:
 			// the page itself: only when it still has items beyond this request
 			isSelf := unwrapLoad(v.X) == ssa.Value(h.fn.Params[0])
@@ -650,10 +674,39 @@ func c10R5(c *Ctx) {
 			n++
 			pos := P.InstrPos(in)
 			key := ""
+			// where the key is chosen first and read afterwards (`key := "next"; if root { key =
+			// "first" }; o.GetAny(key)`, or a helper `kind.nextKey()` inlined), each choice
+			// is judged on the paths to the edge that brings it in
+			type keyAt struct {
+				key string
+				at  *ssa.BasicBlock
+			}
+			var chosen []keyAt
 			if ex, ok := unwrapLoad(st.Val).(*ssa.Extract); ok {
 				if call, ok := ex.Tuple.(*ssa.Call); ok && len(call.Call.Args) >= 2 {
-					key, _ = constString(call.Call.Args[len(call.Call.Args)-1])
+					kv := unwrapLoad(call.Call.Args[len(call.Call.Args)-1])
+					key, _ = constString(kv)
+					if ph, isPhi := kv.(*ssa.Phi); isPhi {
+						okPhi := true
+						for i, e := range ph.Edges {
+							k, isC := constString(unwrapLoad(e))
+							if !isC || (k != "first" && k != "next") {
+								okPhi = false
+							}
+							chosen = append(chosen, keyAt{k, ph.Block().Preds[i]})
+						}
+						if !okPhi {
+							chosen = nil
+						}
+					}
 				}
+			}
+			if len(chosen) > 0 {
+				for _, ch := range chosen {
+					why := followingKeyOnPaths(fn, ch.at, ch.key, isKindRead)
+					c.check(why == "", fname+"/following-page:"+ch.key, pos, fname, "\""+ch.key+"\" is read exactly for the kinds it continues", why)
+				}
+				return
 			}
 			if key != "first" && key != "next" {
 				// table-driven: the key is a field of the entry that a package-level table
@@ -669,51 +722,7 @@ func c10R5(c *Ctx) {
 				c.bad(fname+"/following-page", pos, fname, "the continuation link is not read from the document's \"first\" or \"next\" key")
 				return
 			}
-			paths, complete := enumeratePaths(fn, b, 4096)
-			if !complete {
-				c.bad(fname+"/following-page:"+key, pos, fname, "too many paths to decide")
-				return
-			}
-			why := ""
-			for _, pf := range paths {
-				isRoot, notRoot := false, map[string]bool{}
-				for _, f := range pf.facts {
-					cmp, ok := f.Cond.(*ssa.BinOp)
-					if !ok || (cmp.Op != token.EQL && cmp.Op != token.NEQ) {
-						continue
-					}
-					var other ssa.Value
-					switch {
-					case isKindRead(cmp.X):
-						other = cmp.Y
-					case isKindRead(cmp.Y):
-						other = cmp.X
-					default:
-						continue
-					}
-					s, isC := constString(other)
-					if !isC {
-						continue
-					}
-					equal := (cmp.Op == token.EQL) == f.Truth
-					if s == "Collection" || s == "OrderedCollection" {
-						if equal {
-							isRoot = true
-						} else {
-							notRoot[s] = true
-						}
-					}
-					if (s == "CollectionPage" || s == "OrderedCollectionPage") && equal {
-						notRoot["Collection"], notRoot["OrderedCollection"] = true, true
-					}
-				}
-				if key == "first" && !isRoot {
-					why = "\"first\" is read on a path where the document is not known to be a Collection/OrderedCollection: pages inherit \"first\", so the last page leads back to the first one and every item is delivered again, without end"
-				}
-				if key == "next" && !(notRoot["Collection"] && notRoot["OrderedCollection"]) {
-					why = "\"next\" is read on a path where the document may be a Collection/OrderedCollection, whose pages start at \"first\": the pages of the collection are never visited"
-				}
-			}
+			why := followingKeyOnPaths(fn, b, key, isKindRead)
 			c.check(why == "", fname+"/following-page:"+key, pos, fname, "\""+key+"\" is read exactly for the kinds it continues", why)
 		})
 	}
@@ -896,4 +905,54 @@ func fieldVarOfField(f *ssa.Field) *types.Var {
 		return nil
 	}
 	return st.Field(f.Field)
+}
+
+// followingKeyOnPaths: on every path to block b the kind tests passed agree
+// with reading `key` ("first" for the two root kinds, "next" for the pages).
+func followingKeyOnPaths(fn *ssa.Function, b *ssa.BasicBlock, key string, isKindRead func(ssa.Value) bool) string {
+	paths, complete := enumeratePaths(fn, b, 4096)
+	if !complete {
+		return "too many paths to decide"
+	}
+	why := ""
+	for _, pf := range paths {
+		isRoot, notRoot := false, map[string]bool{}
+		for _, f := range pf.facts {
+			cmp, ok := f.Cond.(*ssa.BinOp)
+			if !ok || (cmp.Op != token.EQL && cmp.Op != token.NEQ) {
+				continue
+			}
+			var other ssa.Value
+			switch {
+			case isKindRead(cmp.X):
+				other = cmp.Y
+			case isKindRead(cmp.Y):
+				other = cmp.X
+			default:
+				continue
+			}
+			s, isC := constString(other)
+			if !isC {
+				continue
+			}
+			equal := (cmp.Op == token.EQL) == f.Truth
+			if s == "Collection" || s == "OrderedCollection" {
+				if equal {
+					isRoot = true
+				} else {
+					notRoot[s] = true
+				}
+			}
+			if (s == "CollectionPage" || s == "OrderedCollectionPage") && equal {
+				notRoot["Collection"], notRoot["OrderedCollection"] = true, true
+			}
+		}
+		if key == "first" && !isRoot {
+			why = "\"first\" is read on a path where the document is not known to be a Collection/OrderedCollection: pages inherit \"first\", so the last page leads back to the first one and every item is delivered again, without end"
+		}
+		if key == "next" && !(notRoot["Collection"] && notRoot["OrderedCollection"]) {
+			why = "\"next\" is read on a path where the document may be a Collection/OrderedCollection, whose pages start at \"first\": the pages of the collection are never visited"
+		}
+	}
+	return why
 }
